@@ -5,6 +5,7 @@ import GeonumModel.Lemmas.GradeAngle
 import GeonumModel.Lemmas.Exact
 import GeonumModel.Props.C05
 import GeonumModel.Lemmas.FloatTrig
+import GeonumModel.Lemmas.FloatProject
 
 set_option linter.unusedSectionVars false
 set_option linter.unusedVariables false
@@ -99,6 +100,37 @@ theorem cos_sin_mag_float {a : Angle F} (ha : a.Inv) :
     refine le_trans (abs_abs_sub_abs_le_abs_sub _ _) ?_
     have := abs_sub_le (val (FloatLike.sin a.gradeAngle)) (Real.sin (val a.gradeAngle)) (Real.sin (Angle.Tpi a))
     linarith
+
+/-- (B) **`adj` and `opp` in rounded arithmetic**: their magnitudes are `|g|·|cos T|` and `|g|·|sin T|` (true total `T`) to within
+    `|g|·(6e-15 + 2⁻⁵³) + 1e-30` — the unsigned Cartesian components; the sign sits in the angle exactly as for `cos` / `sin`
+    (`cos_sin_structure`, `cos_sin_lattice`), because scaling by a non-negative magnitude adds no blade (`C05.scale` sign law) -/
+theorem adj_opp_mag_float {g : Geonum F} (hg : g.angle.Inv) (hm : g.MagDom) :
+    abs (val g.adj.mag - val g.mag * abs (Real.cos (Angle.Tpi g.angle))) ≤ val g.mag * (6 / 10 ^ 15 + 1 / 2 ^ 53) + 1 / 10 ^ 30 ∧
+    abs (val g.opp.mag - val g.mag * abs (Real.sin (Angle.Tpi g.angle))) ≤ val g.mag * (6 / 10 ^ 15 + 1 / 2 ^ 53) + 1 / 10 ^ 30 := by
+  obtain ⟨hmf, hm0, _⟩ := hm
+  obtain ⟨hc, hs⟩ := cos_sin_mag_float hg
+  have hga := gradeAngle_fin hg
+  obtain ⟨hfc, hc1, _⟩ := cos_spec hga
+  obtain ⟨hfs, hs1, _⟩ := sin_spec hga
+  obtain ⟨hfca, hvca⟩ := fabs_spec hfc
+  obtain ⟨hfsa, hvsa⟩ := fabs_spec hfs
+  obtain ⟨hfma, hvma⟩ := fabs_spec hmf
+  rw [abs_of_nonneg hm0] at hvma
+  have st := cos_sin_structure g.angle
+  have hadj : g.adj.mag = fmul (fabs (FloatLike.cos g.angle.gradeAngle)) (fabs g.mag) := by
+    show ((Geonum.cos g.angle).scale g.mag).mag = _
+    unfold Geonum.scale Geonum.mul Geonum.scalar; simp only; rw [st.1]
+  have hopp : g.opp.mag = fmul (fabs (FloatLike.sin g.angle.gradeAngle)) (fabs g.mag) := by
+    show ((Geonum.sin g.angle).scale g.mag).mag = _
+    unfold Geonum.scale Geonum.mul Geonum.scalar; simp only; rw [st.2.1]
+  rw [st.1] at hc; rw [st.2.1] at hs
+  have c1 : |val (fabs (FloatLike.cos g.angle.gradeAngle))| ≤ 1 := by rw [hvca, abs_abs]; exact hc1
+  have s1 : |val (fabs (FloatLike.sin g.angle.gradeAngle))| ≤ 1 := by rw [hvsa, abs_abs]; exact hs1
+  obtain ⟨_, h1⟩ := mul_unit_float hfma (by rw [hvma]; exact hm0) hfca c1 hc
+  obtain ⟨_, h2⟩ := mul_unit_float hfma (by rw [hvma]; exact hm0) hfsa s1 hs
+  rw [hvma] at h1 h2
+  rw [hadj, hopp, fmul_comm hfca hfma, fmul_comm hfsa hfma]
+  exact ⟨h1, h2⟩
 
 end B
 
